@@ -138,16 +138,29 @@ Definition spec_run (ops : list op) : list binding := fold_left spec_step ops []
 Definition rewritten (p : pkt) (b : binding) : delivery :=
   mkD (b_w b)
       (mkP (b_ssrc b) (b_pt b)
-           (if p_hpad p =? 0 then p_ppad p else p_hpad p)   (* the padding size in effect *)
+           (if p_hpad p =? 0 then p_ppad p else p_hpad p)   (* the padding size in effect, [eff_pad] *)
            (p_ppad p) (p_rest p) (p_payload p)).
 
-(* API contract of RTPSender: a context id is bound at most once at a time *)
-Fixpoint wf_from (bound : list nat) (ops : list op) : Prop :=
+(* the padding size in effect for a packet *)
+Definition eff_pad (p : pkt) : N := if p_hpad p =? 0 then p_ppad p else p_hpad p.
+
+(* API contract of RTPSender: a context id is bound at most once at a time.
+   [sp] is the spec state reached so far. *)
+Fixpoint wf_from (sp : list binding) (ops : list op) : Prop :=
   match ops with
   | [] => True
-  | Bind id _ (Some _) _ _ :: t => ~ In id bound /\ wf_from (id :: bound) t
-  | Bind _ _ None _ _ :: t => wf_from bound t
-  | Unbind id :: t => wf_from (filter (fun x => negb (Nat.eqb x id)) bound) t
-  | Write _ :: t => wf_from bound t
+  | o :: t =>
+      match o with
+      | Bind id _ (Some _) _ _ => ~ In id (map b_id sp)
+      | _ => True
+      end /\ wf_from (spec_step sp o) t
   end.
 Definition wf (ops : list op) : Prop := wf_from [] ops.
+
+(* no (successful) Bind of [id] in [ops] *)
+Fixpoint no_bind (id : nat) (ops : list op) : Prop :=
+  match ops with
+  | [] => True
+  | Bind id' _ (Some _) _ _ :: t => id' <> id /\ no_bind id t
+  | _ :: t => no_bind id t
+  end.
